@@ -6,7 +6,7 @@ from oracle_util import *  # noqa
 from protocol import from_real
 
 ID = "C16"
-LEAN_MODULE = ["SCoda.Props.C16", "SCoda.Props.C16b"]
+LEAN_MODULE = ["SCoda.Props.C16", "SCoda.Props.C16b", "SCoda.Props.Purity"]
 CLAUSES = [
     ("a message-wise copy holds the same message values as its original (equals: C17.refl)", ["SCoda.C16.copy_derive", "SCoda.C16.copyAll_spec"]),
     ("a fresh-allocating derivation shares no message with anything that existed; sharing (the unrepaired split, D13) is not a derivation",
@@ -19,7 +19,7 @@ CLAUSES = [
      "in the modelled files; an operation can only write what it reaches (frame). The same is checked on the real objects by the id()/snapshot "
      "harness and a walk of the whole mutable object graph reachable from either side",
      ["SCoda.C16.alias_cert_closed", "SCoda.C16.derivations_return_fresh", "SCoda.C16.derivations_seen", "SCoda.C16.sources_seen",
-      "SCoda.C16.no_global_state"]),
+      "SCoda.C16.no_global_state", "SCoda.Purity.routes_write_nothing_shared", "SCoda.Purity.purity_cert_closed"]),
 ]
 RULE = ("originals (<=6 notes, 1-2 channels, signatures) x derivation routes (Sequence.copy, split, sequences_split_bars with "
         "either re-quantisation setting, Bar.copy, Track.copy, Composition.copy) x histories of <=8 public operations on either "
